@@ -25,6 +25,13 @@ def summaries(tus):
         key = f'partial/{b}/is_6531_email.c'
         if key not in tus: raise AnalysisBroken(f'{key} not analysed')
         out[key] = cfgpaths.summarise(tus[key], 'is_6531_email')
+    # every rule on these functions relies on the address being split by a search of the C string (strrchr and friends):
+    # that is also what keeps NUL bytes out of the ranges handed to the part validators.  A hand-written search loop is
+    # not judged (exit 2, construct named).
+    for key, (eng, paths) in out.items():
+        for p in paths:
+            if any(re.fullmatch(r'is_\w+_local', c[1]) for c in p.calls()) and not any(c[1] in ('strrchr', 'strchr', 'memrchr', 'memchr') for c in p.calls()):
+                raise AnalysisBroken(f'{key}: the address is no longer split with strrchr(email, \'@\') or another library search (a hand-written scan?): the rules that depend on the split point cannot judge it')
     return out
 
 
@@ -40,8 +47,14 @@ def normalise(p, rename=None, drop_asserts=True):
             order[s] = f'{base}@{k}'
         return order[s]
     out = []
+    loops = {}
+    def subl(m):
+        # loop tags carry the source line of the loop, which differs between sibling files: number them in order of appearance
+        return '@L' + str(loops.setdefault(m.group(1), len(loops) + 1))
     for t in text:
         t = re.sub(r'(?:\(\*\w+\)|\w+)#\d+', sub, t)
+        t = re.sub(r'@L(\d+)', subl, t)
+        t = re.sub(r'\bloop L(\d+)', lambda m: 'loop L' + str(loops.setdefault(m.group(1), len(loops) + 1)), t)
         for a, b in (rename or {}).items(): t = t.replace(a, b)
         t = re.sub(r'__assert_fail\(.*\)', '__assert_fail(...)', t)
         out.append(t)
